@@ -142,3 +142,15 @@ M("stroke-delta-full-width", ["C08"], "box grown by the full stroke width", ("  
 M("implicit-stroke-det-no-sqrt", ["C08", "C14"], "implicit stroke width scales by |det| instead of its root", ("                return width * sqrt(abs(det))", "                return width * abs(det)"))
 M("group-bbox-skips-nested", ["C08"], "group union looks at direct children only", ("        return Group.union_bbox(\n            self.select(),", "        return Group.union_bbox(\n            iter(self),"))
 M("subpath-bbox-untransformed-stroke", ["C08"], "Subpath.bbox(transformed=False) ignores the stroke flag", ("        if (\n            with_stroke\n            and self._path.stroke_width is not None", "        if (\n            False\n            and self._path.stroke_width is not None"))
+
+# ---- lengths and point(t) (C15) --------------------------------------------------------------------------
+M("quad-length-fallback-branch", ["C15"], "degenerate quadratic fallback picks the wrong branch", ("                if k >= 2:\n                    s = abs(b) - abs(a)", "                if k >= 1:\n                    s = abs(b) - abs(a)"))
+M("quad-length-closed-form-typo", ["C15"], "closed form of the quadratic length: 4CA-BB sign", ("                + (4 * C * A - B * B) * log((2 * A2 + BA + Sabc) / (BA + C2))", "                + (4 * C * A + B * B) * log((2 * A2 + BA + Sabc) / (BA + C2))"))
+M("arc-circle-shortcut-uses-ry-only", ["C15"], "circle shortcut threshold too wide", ("        if d < ERROR:  # This is a circle.\n            return abs(self.rx * self.sweep)", "        if d < 1e-2:  # This is a circle.\n            return abs(self.rx * self.sweep)"))
+M("subdivision-min-depth-skipped", ["C15"], "min_depth honoured with 'and'", ("        if (length2 - length > error) or (depth < min_depth):", "        if (length2 - length > error) and (depth < min_depth):"))
+M("subdivision-error-halved-each-level", ["C15"], "stop criterion compares against 100 x error", ("        if (length2 - length > error) or (depth < min_depth):", "        if (length2 - length > error * 100) or (depth < min_depth):"))
+M("calc-lengths-skips-last", ["C15"], "relative lengths computed over all but the last segment", ("        lengths = [each.length(error=error, min_depth=min_depth) for each in segments]\n        self._length_error = error", "        lengths = [each.length(error=error, min_depth=min_depth) for each in segments[:-1]] + [0]\n        self._length_error = error"))
+M("point-segment-strict-compare", ["C15"], "point(t): first segment whose end is strictly greater", ("            if segment_end >= position:\n                # This is the segment! How far in on the segment is the point?", "            if segment_end > position + 1e-3:\n                # This is the segment! How far in on the segment is the point?"))
+M("point-fallthrough-start", ["C15"], "fall-through of point(t) returns the last segment's start again", ("        else:\n            # The fractions summed to slightly less than the position: it is the end of the last segment.\n            segment_pos = 1.0\n", ""))
+M("reverse-keeps-cache", ["C15", "C16"], "reverse no longer invalidates the cached lengths", ("        self._segments[0].start = prepoint\n        self._length = None\n        self._lengths = None\n        return self", "        self._segments[0].start = prepoint\n        return self"))
+M("close-length-zero", ["C15"], "Close contributes no length", ("    def length(self, error=None, min_depth=None):\n        if self.start is not None and self.end is not None:\n            return Point.distance(self.end, self.start)", "    def length(self, error=None, min_depth=None):\n        if isinstance(self, Close):\n            return 0\n        if self.start is not None and self.end is not None:\n            return Point.distance(self.end, self.start)"))
